@@ -50,6 +50,22 @@ def check_result(ctx, r):
     cost = res["label_assignment_cost"]
     scale = max(1.0, abs(res["overall"]), abs(cost))
     want = -res["overall"] + beta * within
+    if cfg.get("beta_vec"):
+        # per-pair switching costs: entry i prices the pair (i, i+1) of the stacked sequence
+        bv = e2e.beta_of(cfg)
+        sw, pos = 0.0, 0
+        for p in parts:
+            for j in range(len(p) - 1):
+                if p[j] != p[j + 1]:
+                    sw += float(bv[pos + j])
+            pos += len(p)
+        want = -res["overall"] + sw
+        if not cfg.get("joint") and abs(cost - want) > 1e-8 * scale:
+            ctx.violation("monitor", "cost %.9g is not -overall log-likelihood + the per-pair switching costs of the pairs with different labels %.9g (%d such pairs)"
+                          % (cost, want, within), {"case": case})
+            return
+        if not cfg.get("joint"):
+            return
     if abs(cost - want) <= 1e-8 * scale:
         return
     if bounds and abs(cost - (want + beta * bounds)) <= 1e-8 * scale:
@@ -114,6 +130,10 @@ def run(ctx):
         from .c07 import joint_cfgs
         runs = runs + e2e.cached_runs(ctx, joint_cfgs(ctx.seed, ctx.thorough), "c07")
         runs.append(e2e.traced_run({"N": 1, "W": 2, "K": 2, "beta": 1.0, "lengths": [30, 22], "limit": 2, "m": 1, "data_seed": 1, "rng_seed": 1, "joint": True}))
+        # switching costs given per pair, not all equal (single-series front end; converged and limit-stopped runs)
+        runs += e2e.cached_runs(ctx, [{"N": 1 + j % 2, "W": 1 + j % 3, "K": 2 + j % 2, "beta": [2.0, 6.0, 0.5][j % 3], "beta_vec": ["ramp", "random", "const"][j % 3],
+                                       "lam": 0.11, "limit": [30, 1, 3][j % 3], "m": 2, "biased": False, "eps": 0, "joint": False, "lengths": [70 + 5 * j],
+                                       "data_seed": 660 + j, "rng_seed": 660 + j, "regimes": 3} for j in range(ctx.budget(5, 12))], "c06vec")
         empties = 0
         for r in runs:
             ctx.count("run")
